@@ -131,7 +131,7 @@ def r1(idx, rep):
         fw = idx.method("CsvPaths", w)
         rep.analysed(fw)
         c = [n for n in walk_no_nested(fw.node) if isinstance(n, ast.Call) and call_name(n) == "next_by_line"]
-        kw = K.kw_text(fw, c[0]) if len(c) == 1 else {}
+        kw = K.kw_values(idx, fw, c[0]) if len(c) == 1 else {}
         want = {"pathsname": "pathsname", "filename": "filename", "collect": collect, "if_all_agree": "if_all_agree", "collect_when_not_matched": "collect_when_not_matched"}
         rep.check(kw == want, "R1", f"{fw.file}::CsvPaths.{w} forwards to next_by_line", f"{kw}", K.where(fw, fw.node))
 
@@ -141,7 +141,7 @@ def r2(idx, rep):
     fi = idx.method("CsvPaths", "csvpath")
     rep.analysed(fi)
     ctor = [n for n in walk_no_nested(fi.node) if isinstance(n, ast.Call) and call_name(n) == "CsvPath"]
-    kw = K.kw_text(fi, ctor[0]) if len(ctor) == 1 else {}
+    kw = K.kw_values(idx, fi, ctor[0]) if len(ctor) == 1 else {}
     okc = kw.get("csvpaths") == "self" and kw.get("delimiter") == "self.delimiter" and kw.get("quotechar") == "self.quotechar" and kw.get("skip_blank_lines") == "self.skip_blank_lines"
     rets = [n for n in walk_no_nested(fi.node) if isinstance(n, ast.Return)]
     rep.check(okc and len(rets) == 1, "R2", f"{fi.file}::CsvPaths.csvpath builds a new member", f"{kw}", K.where(fi, fi.node))
